@@ -96,9 +96,7 @@ pub fn scenarios(prop: &str, tier: &str) -> Vec<Scenario> {
     // sample or the point at exactly one step toward it, and every tree invariant holds
     if prop == "C15" || prop == "C16" {
         out.extend(crate::catalog::zero_weight_scenarios(prop, &Pk::TREES));
-        if prop == "C16" {
-            out.extend(crate::catalog::heavy_weight_scenarios(prop, &Pk::TREES));
-        }
+        out.extend(crate::catalog::heavy_weight_scenarios(prop, &Pk::TREES));
         for mut sc in crate::props_paths::scenarios("C04", tier) {
             if sc.params.pk != Pk::Prm && (sc.tag.contains("x0.3") || (thorough && sc.tag.contains("x1/"))) {
                 sc.tag = sc.tag.replacen("C04/", &format!("{prop}/bounded/"), 1);
